@@ -1,11 +1,11 @@
 #!/usr/bin/env python3
 """C01 translator: the opcode tables of duke's code-array reader, read from the Rust source.
 
-reads   /repo/duke/src/class_constants.rs   (mod opcode, mod atype)
-        /repo/duke/src/class_reader.rs      (fn read_code: the first-pass `match r.read_u8()?` that finds
+reads   <REPO>/duke/src/class_constants.rs   (mod opcode, mod atype)
+        <REPO>/duke/src/class_reader.rs     (fn read_code: the first-pass `match r.read_u8()?` that finds
                                              instruction boundaries and creates labels, and the second-pass
                                              `match r.read_u8()?` that decodes the instructions)
-writes  /verif/coq/C01/Opcodes.v
+writes  <COQ>/C01/Opcodes.v      (REPO, COQ: lib/vcheck.py)
 
 Generated:
   op_<NAME> : N                         every opcode constant
@@ -23,9 +23,18 @@ error of the check, never guessed at.
 """
 import os
 import re
+import sys
 
-REPO = os.environ.get("VERIF_REPO", "/repo")
-OUT = os.path.join(os.path.dirname(os.path.dirname(os.path.abspath(__file__))), "coq", "C01", "Opcodes.v")
+sys.path.insert(0, os.path.join(os.path.dirname(os.path.dirname(os.path.abspath(__file__))), "lib"))
+import vcheck  # REPO (the tree under test) and COQ (the Coq project to write into) are parameters of the run
+
+
+def _repo():
+    return vcheck.REPO
+
+
+def _out():
+    return os.path.join(vcheck.COQ, "C01", "Opcodes.v")
 
 
 class Bad(Exception):
@@ -162,7 +171,7 @@ P1_TSWITCH = squash("""{
     let low = r.read_i32()?;
     let high = r.read_i32()?;
     if low > high { bail!("in tableswitch `low` must be lower or equal to `high`, it's low={low:?} and high={high:?}"); }
-    let n = (high - low + 1) as u32;
+    let n = high as i64 - low as i64 + 1;
     for _ in 0..n {
         labels.create(r.read_i32_as_branch_target_label(opcode_pos)?)?;
     }
@@ -313,8 +322,8 @@ P2_TSWITCH = squash("""{
     let low = r.read_i32()?;
     let high = r.read_i32()?;
     if low > high { bail!("in tableswitch `low` must be lower or equal to `high`, it's low={low:?} and high={high:?}"); }
-    let n = (high - low + 1) as u32;
-    let mut table = Vec::with_capacity(n as usize);
+    let n = high as i64 - low as i64 + 1;
+    let mut table = Vec::with_capacity(n.min(bytecode.len() as i64 / 4) as usize);
     for _ in 0..n {
         let entry = labels.try_get(r.read_i32_as_branch_target_label(opcode_pos)?)?;
         table.push(entry);
@@ -505,12 +514,12 @@ def emit(ops, atypes, p1, p1w, p2, p2w):
 
 
 def generate():
-    cc = strip_comments(open(os.path.join(REPO, "duke/src/class_constants.rs")).read())
+    cc = strip_comments(open(os.path.join(_repo(), "duke/src/class_constants.rs")).read())
     ops = mod_consts(cc, "opcode")
     atypes = mod_consts(cc, "atype")
     if len(set(ops.values())) != len(ops):
         raise Bad("two opcode constants share a value")
-    cr = strip_comments(open(os.path.join(REPO, "duke/src/class_reader.rs")).read())
+    cr = strip_comments(open(os.path.join(_repo(), "duke/src/class_reader.rs")).read())
     m = re.search(r"\bfn\s+read_code\s*<", cr)
     if not m:
         raise Bad("class_reader.rs: fn read_code not found")
@@ -537,6 +546,7 @@ def run():
         text = generate()
     except Bad as ex:
         return ["c01_opcodes: " + str(ex)]
+    OUT = _out()
     old = open(OUT).read() if os.path.exists(OUT) else None
     if old != text:
         os.makedirs(os.path.dirname(OUT), exist_ok=True)
